@@ -22,7 +22,10 @@ PROPS = {
         'rule': 'graph: all symmetric simple graphs <= 4 atoms x bond kinds x every bond-list order, random well-formed graphs up to 300 atoms '
                 '(trees, fused / spiro / bridged rings, several components, all atom kinds incl. six-field bracket atoms, all eight bond kinds), '
                 'ring-rich graphs; read: accepted strings whose graph builds; kinds: the text of every atom-kind family. The oracle re-reads what '
-                'was written and tests isomorphism. non-trivial = accepted, at least one atom',
+                'was written and tests isomorphism. non-trivial = accepted, at least one atom. soak: three size families of 10^5 (thorough 10^6) atoms, '
+                'i.e. atom indices beyond 16 bits, through read -> build -> walk -> write -> read -> build with the isomorphism tested at that size',
+        'soak': {'quick': [('chain', 100000), ('comb', 100000), ('ringlist', 100000)],
+                 'thorough': [('chain', 1000000), ('comb', 1000000), ('ringlist', 1000000), ('macrocycle', 300000)]},
         'assumptions': ASSUME_COMMON,
     },
     'C02': {
@@ -33,7 +36,10 @@ PROPS = {
         ],
         'rule': 'read: bounded-exhaustive strings over SMILES sub-alphabets and grammar-directed random strings with nested branches, dots in '
                 'branches, re-used ring numbers, several digits per atom, explicit / elided / directional kinds on either end of a closure; atom: every '
-                'token family. Events and the built graph (or build error) are compared. non-trivial = not refused at position 0',
+                'token family. Events and the built graph (or build error) are compared. non-trivial = not refused at position 0. soak: the built graph '
+                'compared with the independent interpreter at 10^5 (thorough 10^6) atoms (atom indices beyond 16 bits)',
+        'soak': {'quick': [('chain', 100000), ('comb', 100000), ('ringlist', 100000)],
+                 'thorough': [('chain', 1000000), ('comb', 1000000), ('ringlist', 1000000), ('macrocycle', 300000)]},
         'assumptions': ASSUME_COMMON,
     },
     'C03': {
@@ -54,7 +60,9 @@ PROPS = {
             {'name': 'read', 'fields': ['V', 'B'], 'nontrivial': nontrivial_read},
         ],
         'rule': 'graph: all small graphs x every order of every bond list (every position of the arrival bond, every mixture of ring-closure and '
-                'tree bonds at one atom up to degree 3; random graphs up to degree 8 and 300 atoms); read: accepted strings. non-trivial = accepted',
+                'tree bonds at one atom up to degree 3; random graphs up to degree 8 and 300 atoms; a hub family: a non-root atom of degree 5..130 '
+                '(thorough ..260, around the powers of two and 20/21/32/33) with the arrival bond at positions 0, 1, 4, 7, middle and last, all neighbours '
+                'distinguishable, with and without ring closures among its bonds); read: accepted strings. non-trivial = accepted',
         'assumptions': ASSUME_COMMON,
     },
     'C14': {
@@ -64,7 +72,9 @@ PROPS = {
             {'name': 'read', 'fields': ['V', 'W'], 'nontrivial': nontrivial_read},
         ],
         'rule': 'the S-graph and S-read sets; every well-formed input is additionally written in three fresh threads (fresh HashMap seeds) and '
-                'rewritten twice by the oracle. non-trivial = accepted',
+                'rewritten twice by the oracle. non-trivial = accepted. soak: the fixed point at 10^5 (thorough 10^6) atoms',
+        'soak': {'quick': [('chain', 100000), ('comb', 100000), ('ringlist', 100000)],
+                 'thorough': [('chain', 1000000), ('comb', 1000000), ('ringlist', 1000000), ('macrocycle', 300000)]},
         'assumptions': ASSUME_COMMON + ['hash-seed independence is a runtime fact: measured by repeated runs in fresh threads, not proved'],
     },
     'C15': {
@@ -105,8 +115,10 @@ PROPS = {
             {'name': 'depth', 'fields': ['V', 'D'], 'nontrivial': lambda rq, resp: True},
             {'name': 'read', 'fields': ['V', 'D'], 'nontrivial': nontrivial_read},
         ],
-        'soak': {'quick': [('chain', 200000), ('dots', 200000), ('branches', 100000), ('ringlist', 200000), ('ringchain', 290)],
-                 'thorough': [('chain', 1000000), ('dots', 1000000), ('branches', 500000), ('ringlist', 1000000), ('ringchain', 290), ('digits', 300000)]},
+        'soak': {'quick': [('chain', 200000), ('dots', 200000), ('branches', 100000), ('ringlist', 200000), ('ringchain', 290),
+                           ('branchchain', 300000), ('macrocycle', 300000), ('comb', 200000)],
+                 'thorough': [('chain', 1000000), ('dots', 1000000), ('branches', 500000), ('ringlist', 1000000), ('ringchain', 290), ('digits', 300000),
+                              ('branchchain', 1000000), ('macrocycle', 1000000), ('comb', 1000000)]},
         'rule': 'depth: six size families with constant nesting (chain, dot list, branches on one atom, dot-separated rings, ring chain, ring digit '
                 'list) at 1..5000 (thorough 12000) atoms and two nested families up to depth 200: the activation counter of the hook is compared '
                 'with the model depth on every string; read: the same comparison on the S-read strings; soak: read -> build -> walk -> write -> '
@@ -123,8 +135,10 @@ PROPS = {
             {'name': 'val', 'requests': r'VAL ', 'panic_only': True},
             {'name': 'depth', 'panic_only': True},
         ],
-        'soak': {'quick': [('nested', 100000), ('chain', 100000), ('dots', 200000), ('branches', 100000), ('ringlist', 200000)],
-                 'thorough': [('nested', 100000), ('chain', 1000000), ('dots', 1000000), ('branches', 500000), ('ringlist', 1000000)]},
+        'soak': {'quick': [('nested', 100000), ('chain', 100000), ('dots', 200000), ('branches', 100000), ('ringlist', 200000),
+                           ('branchchain', 300000), ('macrocycle', 300000)],
+                 'thorough': [('nested', 100000), ('chain', 1000000), ('dots', 1000000), ('branches', 500000), ('ringlist', 1000000),
+                              ('branchchain', 1000000), ('macrocycle', 1000000), ('comb', 1000000)]},
         'rule': 'every suite of the harness with the panic behaviour of every response field compared (a panic of the real code where the model has none is a '
                 'disagreement): bounded-exhaustive and random strings incl. multi-byte and control characters, all small adjacency lists '
                 'incl. garbage (dangling, self, duplicate, asymmetric bonds), random well-formed and mutated graphs up to 300 atoms, ring-rich '
